@@ -71,6 +71,13 @@ def _run_variant(args):
                     stream.write(transform(src))
             keys, errors = _keys(prop, tmp)
             return (v.name, "ran", ";".join(errors), keys)
+        if v.module == "*patch":    # a seeded change kept under /verif/seeded: apply its patch to the scratch copy
+            import subprocess
+            r = subprocess.run(["git", "apply", "--whitespace=nowarn", v.old], cwd=tmp, capture_output=True, text=True)
+            if r.returncode != 0:
+                return (v.name, "skipped", "patch does not apply to the current tree", [])
+            keys, errors = _keys(prop, tmp)
+            return (v.name, "ran", ";".join(errors), keys)
         for module, old, new in [(v.module, v.old, v.new)] + list(v.extra or []):
             path = os.path.join(tmp, "pyrefact", module + ".py")
             with open(path, encoding="utf-8") as stream:
@@ -105,6 +112,20 @@ def run(prop: str, seed: int = 0, only: Optional[str] = None, verbose: bool = Fa
     variants.append(Variant("conjunctive-guards-split-into-nested-ifs", "SILENT", "*split", "", ""))
     variants.append(Variant("comparisons-written-the-other-way-round", "SILENT", "*mirror", "", ""))
     variants.append(Variant("all-five-refactorings-composed", "SILENT", "*all", "", ""))
+    # the seeded changes of independent agents written against this property (see DESIGN.md section 9)
+    import glob as _glob
+    import json as _json
+    seeded_dir = os.path.join(os.path.dirname(os.path.dirname(os.path.abspath(__file__))), "seeded")
+    for meta_path in sorted(_glob.glob(os.path.join(seeded_dir, "*", "meta.json"))):
+        try:
+            with open(meta_path, encoding="utf-8") as stream:
+                meta = _json.load(stream)
+        except (OSError, ValueError):
+            continue
+        if meta.get("property") != prop:
+            continue
+        kind = "INFO" if str(meta.get("expected", "")).startswith("missed") else "FIRE"
+        variants.append(Variant(f"seeded-change-{meta['id']}", kind, "*patch", os.path.join(os.path.dirname(meta_path), "patch.diff"), ""))
     if only:
         variants = [v for v in variants if only in v.name]
     random.Random(seed).shuffle(variants)
@@ -137,6 +158,9 @@ def run(prop: str, seed: int = 0, only: Optional[str] = None, verbose: bool = Fa
                 failures.append(f"{v.kind} variant {name}: {state}: {info}")
                 summary["failed"] += 1
                 verdict = f"FAILED {state}: {info}"
+        elif v.kind == "INFO":
+            summary["silent"] += 1
+            verdict = ("reported: " + new[0]) if new else "not reported (expected: value-level)"
         elif v.kind == "FIRE":
             hit = [k for k in new if (v.expect_rule is None or k.startswith(v.expect_rule + "|"))
                    and (v.expect_in is None or v.expect_in in k)]
